@@ -272,34 +272,32 @@ def stepProj (roiE mE ptsE epsE exactE pyout : Sexp) : String :=
       | _ => driverResult (.list [ofNats shape, ofBits (rows.map implF)]) false true (inHyp roi ε) "proj/py-error"
   | _, _, _, _, _ => bad "proj-args"
 
-def stepDisc (roiE vsE ptsE epsE pyout : Sexp) : String :=
-  match roi? roiE, vsE.toList?.bind (·.mapM pt?), pts? ptsE, num? epsE with
-  | some roi, some vs, some (_, ps), some ε =>
-    match discBounds roi, bits? pyout with
-    | some (lower, upper), some py =>
-      -- every vertex of `to_polygon()` lies on the boundary (within ε) of the region it approximates
-      let vertsOk := match roi with
-        | .annulus _ => vs.all fun v => roi.near v ε
-        | _ => vs.all fun v => roi.near v ε
-      let g : Roi := .poly { vs := vs }
-      let implG := Impl.containsFn g
-      let implF := liftO g implG
-      let nearF := fun (p : PtO) => nearO g p ε
-      -- model fidelity: the polygon test on the very vertices python produced
-      let (out, _, _, nb) := compareBits ps py implF implF nearF false
-      -- discretisation clause: far inside the inscribed-scaled region ⇒ True; far outside ⇒ False
-      let clause := (ps.zip py).all fun (p, b) =>
-        let mustT := containsO Spec.contains lower p && !nearO lower p ε
-        let mustF := !containsO Spec.contains upper p && !nearO upper p ε
-        (!mustT || b) && (!mustF || !b)
-      let implClause := ps.all fun p =>
-        let mustT := containsO Spec.contains lower p && !nearO lower p ε
-        let mustF := !containsO Spec.contains upper p && !nearO upper p ε
-        nearF p || ((!mustT || implF p) && (!mustF || !implF p))
-      driverResult (ofBits out) (clause && vertsOk && py.length == ps.length) implClause true
-        ("disc-" ++ roiKind roi ++ "/" ++ bandBucket nb)
-    | _, _ => driverResult (.atom "b") false true true "disc/py-error"
-  | _, _, _, _ => bad "disc-args"
+def stepDisc (roiE ptsE epsE pyout : Sexp) : String :=
+  match roi? roiE, pts? ptsE, num? epsE with
+  | some roi, some (_, ps), some ε =>
+    match pyout with
+    | .list [vsE, pbits] =>
+      match discBounds roi, bits? pbits, vsE.toList?.bind (·.mapM pt?) with
+      | some (lower, upper), some py, some vs =>
+        -- every vertex of `to_polygon()` lies on the boundary (within ε) of the region it approximates
+        let vertsOk := vs.all fun v => roi.near v ε
+        let g : Roi := .poly { vs := vs }
+        let implG := Impl.containsFn g
+        let implF := liftO g implG
+        let nearF := fun (p : PtO) => nearO g p ε
+        -- model fidelity: the polygon test on the very vertices python produced
+        let (out, _, _, nb) := compareBits ps py implF implF nearF false
+        -- discretisation clause: far inside the inscribed-scaled region ⇒ True; far outside ⇒ False
+        let mustT := fun (p : PtO) => containsO Spec.contains lower p && !nearO lower p ε
+        let mustF := fun (p : PtO) => !containsO Spec.contains upper p && !nearO upper p ε
+        let clause := (ps.zip py).all fun (p, b) => (!mustT p || b) && (!mustF p || !b)
+        let implClause := ps.all fun p => nearF p || ((!mustT p || implF p) && (!mustF p || !implF p))
+        let free := (ps.filter fun p => !mustT p && !mustF p).length
+        driverResult (.list [vsE, ofBits out]) (clause && vertsOk && py.length == ps.length) implClause true
+          ("disc-" ++ roiKind roi ++ "/" ++ bandBucket nb ++ "/free" ++ bandBucket free)
+      | _, _, _ => driverResult (.atom "bad") false true true "disc/bad-py"
+    | _ => driverResult (.atom "bad") false true true "disc/py-error"
+  | _, _, _ => bad "disc-args"
 
 def step (line : String) : String :=
   match Sexp.parse line with
@@ -316,17 +314,19 @@ def step (line : String) : String :=
       driverResult (ofBits out) (pyout == ofBits out) true true
         (if vs.length < 3 then "lt3" else if onb > 0 then "with-boundary-points" else "no-boundary-points")
     | _, _ => bad "l0poly-args"
-  | some (.list [.atom "contains", .list [roiE, ptsE, epsE, exactE], pyout]) =>
+  | some (.list [.atom "contains", .list [roiE, ptsE, epsE, exactE, _layout], pyout]) =>
     stepContains roiE ptsE epsE exactE pyout
   | some (.list [.atom "ops", .list [roiE, opsE, ptsE, epsE, tolE], pyout]) =>
     stepOps roiE opsE ptsE epsE tolE pyout
-  | some (.list [.atom "proj", .list [roiE, mE, ptsE, epsE, exactE], pyout]) =>
+  | some (.list [.atom "proj", .list [roiE, mE, ptsE, epsE, exactE, _layout], pyout]) =>
     stepProj roiE mE ptsE epsE exactE pyout
-  | some (.list [.atom "disc", .list [roiE, vsE, ptsE, epsE], pyout]) =>
-    stepDisc roiE vsE ptsE epsE pyout
+  | some (.list [.atom "disc", .list [roiE, ptsE, epsE], pyout]) =>
+    stepDisc roiE ptsE epsE pyout
   | some (.list [.atom "cat", .list [catsE, xsE], pyout]) =>
     match catsE.toInts?, xsE.toInts? with
-    | some cats, some xs =>
+    | some raw, some xs =>
+      -- `update_categories` stores `np.unique(categories)`: sorted, duplicates removed
+      let cats := ArrayUtil.categories raw
       let out := xs.map (Impl.catContains cats)
       let spec := xs.map (Spec.catContains cats)
       driverResult (ofBits out) (pyout == ofBits spec) (out == spec) true
